@@ -114,9 +114,17 @@ pub fn run(ctx: &Ctx) -> Report {
 		// (0xA3 ~ '#', 0xBF ~ '?', 0xBA ~ ':', 0xAF ~ '/', 0xA5 ~ '%', 0xAE ~ '.', lead bytes
 		// 0xDB ~ '[', 0xDD ~ ']'): a scanner that masks or mis-compares bytes shows up here
 		if f == Family::Iri {
-			let twins: Vec<Vec<u8>> = ["a", ":", "/", "?", "#", "@", "£", "¿", "º", "¯", "¥", "®", "\u{6C0}", "\u{750}"].iter().map(|s| domains::b(s)).collect();
+			// ... and characters whose CODE POINT ends in a delimiter's byte (U+0140 ~ '@',
+			// U+013A ~ ':', U+012F ~ '/', U+013F ~ '?', U+0123 ~ '#', U+015B ~ '[', U+015D ~ ']'):
+			// a scanner that truncates `char as u8` shows up here
+			let twins: Vec<Vec<u8>> = [
+				"a", ":", "/", "?", "#", "@", "£", "¿", "º", "¯", "¥", "®", "\u{6C0}", "\u{750}", "\u{140}", "\u{13A}", "\u{12F}", "\u{13F}", "\u{123}", "\u{15B}", "\u{15D}",
+			]
+			.iter()
+			.map(|s| domains::b(s))
+			.collect();
 			let shards = domains::raw_shard_count(twins.len());
-			let tn = ctx.pick(5usize, 6usize);
+			let tn = ctx.pick(4usize, 5usize);
 			let r = run_shards(ctx, shards, |si| {
 				let mut r = Report::new();
 				let mut vs = Vec::new();
@@ -202,6 +210,11 @@ pub fn auth_alphabet(f: Family) -> Vec<Vec<u8>> {
 	v.into_iter().map(domains::b).collect()
 }
 
+/// IRI only: UTF-8 byte twins and code-point twins of the authority delimiters '@' ':' '[' ']'.
+pub fn auth_twin_alphabet() -> Vec<Vec<u8>> {
+	["a", ":", "@", "[", "]", "1", "º", "\u{6C0}", "\u{750}", "\u{140}", "\u{13A}", "\u{15B}", "\u{15D}"].iter().map(|s| domains::b(s)).collect()
+}
+
 pub fn run_c03(ctx: &Ctx) -> Report {
 	let refs = Refs::new(&ctx.root);
 	let mut total = Report::new();
@@ -271,6 +284,23 @@ pub fn run_c03(ctx: &Ctx) -> Report {
 		});
 		total.count(&format!("{}_raw_valid_authorities", f.name()), r.states);
 		total.merge(r);
+		if f == Family::Iri {
+			let tw = auth_twin_alphabet();
+			let tn = ctx.pick(5usize, 6usize);
+			let r = run_shards(ctx, domains::raw_shard_count(tw.len()), |si| {
+				let mut r = Report::new();
+				let mut vs = Vec::new();
+				domains::for_each_raw(&tw, tn, si, |t| {
+					if t.is_ascii() || !ref_valid(&d, f, Kind::Authority, t) {
+						return;
+					}
+					one(t, &mut r, &mut vs);
+				});
+				r
+			});
+			total.count("iri_twin_authorities", r.states);
+			total.merge(r);
+		}
 		// AUTH product
 		let mut r = Report::new();
 		let mut vs = Vec::new();
